@@ -355,5 +355,59 @@ func (o *Once) Do(f func()) {
 // Map and Pool are not used by the instrumented packages; aliases keep other code compiling.
 type Map = gosync.Map
 
-// Pool mirrors sync.Pool (alias).
-type Pool = gosync.Pool
+// Pool mirrors sync.Pool: inside an execution it is a deterministic LIFO free list whose Put/Get pair carries a
+// happens-before edge (as the race detector models it); outside it delegates to the real pool.
+type Pool struct {
+	New   func() any
+	real  gosync.Pool
+	gen   uint64
+	items []poolItem
+}
+
+type poolItem struct {
+	x  any
+	hb *vsched.Sync
+}
+
+func (p *Pool) fresh() {
+	if g := vsched.Gen(); p.gen != g {
+		p.gen = g
+		p.items = nil
+	}
+}
+
+// Put adds x to the pool.
+func (p *Pool) Put(x any) {
+	if !vsched.Active() {
+		p.real.Put(x)
+		return
+	}
+	p.fresh()
+	hb := &vsched.Sync{}
+	hb.Release()
+	p.items = append(p.items, poolItem{x, hb})
+}
+
+// Get returns the most recently put item, or New().
+func (p *Pool) Get() any {
+	if !vsched.Active() {
+		if x := p.real.Get(); x != nil {
+			return x
+		}
+		if p.New != nil {
+			return p.New()
+		}
+		return nil
+	}
+	p.fresh()
+	if n := len(p.items); n > 0 {
+		it := p.items[n-1]
+		p.items = p.items[:n-1]
+		it.hb.Acquire()
+		return it.x
+	}
+	if p.New != nil {
+		return p.New()
+	}
+	return nil
+}
